@@ -83,9 +83,16 @@ class Builder:
 PRIOS = [-2, -1, 0, 0, 1, 1, 3]
 
 
+_STRAT = None      # set by generate(): the k-th program of a family; worker kind x queue kind are cycled, not drawn, so that
+                   # every one of the library's Add/AddAll/Bind implementations (one per combination) is visited evenly
+
+
 def base_cfg(rng, wk=None, qkind=None, conc=None):
-    qk = qkind or rng.choice(['fifo', 'fifo', 'prio'])
-    return {'wk': wk or rng.choice(WKS), 'conc': conc or rng.choice([1, 1, 2, 3]), 'queues': [qk],
+    qk0, wk0 = rng.choice(['fifo', 'fifo', 'prio']), rng.choice(WKS)      # (drawn in any case: keeps the random stream stable)
+    if _STRAT is not None:
+        wk0, qk0 = WKS[_STRAT % 3], ['fifo', 'prio'][(_STRAT // 3) % 2]
+    qk = qkind or qk0
+    return {'wk': wk or wk0, 'conc': conc or rng.choice([1, 1, 2, 3]), 'queues': [qk],
             'errs_reader': rng.random() < 0.5}
 
 
@@ -354,6 +361,43 @@ def fam_multim(rng, pid):
     return b.prog(cfg)
 
 
+REJECT_KINDS = [('plain', 'fifo'), ('plain', 'prio'), ('err', 'fifo'), ('err', 'prio'), ('result', 'fifo'), ('result', 'prio'),
+                ('plain', 'pfifo'), ('plain', 'pprio'), ('plain', 'dfifo'), ('plain', 'dprio')]
+
+
+def fam_reject(rng, pid):
+    """rejected submissions on every kind of queue (one Add and one AddAll implementation per worker kind x queue kind): a
+    closed in-memory queue, an adapter that refuses the enqueue; accepted ones around them; counters and handles afterwards"""
+    b = Builder(rng, 'reject', pid)
+    wk, qk = REJECT_KINDS[(_STRAT if _STRAT is not None else rng.randrange(10)) % len(REJECT_KINDS)]
+    cfg = {'wk': wk, 'conc': rng.choice([1, 2]), 'queues': [qk], 'errs_reader': rng.random() < 0.5}
+    pr = PRIOS if qk in ('prio', 'pprio', 'dprio') else None
+    mem = qk in ('fifo', 'prio')
+    ops = [b.add(0, pr) for _ in range(rng.choice([1, 2]))]
+    faults = None
+    if mem:
+        ops.append({'op': 'QClose', 'q': 0})
+        ops += [b.add(0, pr) for _ in range(rng.choice([1, 2]))]
+        if rng.random() < 0.7:
+            op, bid = b.addall(0, rng.choice([1, 2, 3]), pr)
+            ops += [op, {'op': 'BatchWait', 'b': bid}, {'op': 'BatchPending', 'b': bid}]
+    else:
+        n_more = rng.choice([2, 3])
+        ops += [b.add(0, pr) for _ in range(n_more)]
+        faults = {'enq': sorted(set(rng.randrange(1, 1 + n_more + 1) for _ in range(rng.choice([1, 2]))))}
+    ops += [{'op': 'WUF'}, {'op': 'Metrics'}, {'op': 'NumPending'}, {'op': 'QPending', 'q': 0}]
+    for j in list(b.jobs)[:3]:
+        if mem:
+            ops.append({'op': rng.choice(['Wait', 'Status']), 'job': j})
+    b.client('c1', ops)
+    if rng.random() < 0.4:
+        b.client('c2', [b.add(0, pr) for _ in range(rng.choice([1, 2]))] + [{'op': 'Metrics'}])
+    p = b.prog(cfg)
+    if faults:
+        p['faults'] = faults
+    return p
+
+
 RAW_KINDS = ['undecodable', 'badstatus', 'foreign', 'closed']
 
 
@@ -508,7 +552,7 @@ def life_exhaustive(maxlen, seed, prefix):
     return out
 
 
-FAMILIES = {'multim': fam_multim, 'life': fam_life, 'distbind': fam_distbind, 'bind2': fam_bind2, 'tune': fam_tune, 'adapter': fam_adapter, 'dist': fam_dist, 'basic': fam_basic, 'barrier': fam_barrier, 'ctl': fam_ctl, 'cancel': fam_cancel, 'batch': fam_batch,
+FAMILIES = {'reject': fam_reject, 'multim': fam_multim, 'life': fam_life, 'distbind': fam_distbind, 'bind2': fam_bind2, 'tune': fam_tune, 'adapter': fam_adapter, 'dist': fam_dist, 'basic': fam_basic, 'barrier': fam_barrier, 'ctl': fam_ctl, 'cancel': fam_cancel, 'batch': fam_batch,
             'handle': fam_handle, 'pool': fam_pool, 'multi': fam_multi}
 
 
@@ -521,10 +565,17 @@ def generate(families, n, seed, prefix='e'):
             fams += [f[0]] * f[1]
         else:
             fams.append(f)
-    out = []
+    global _STRAT
+    out, seen = [], {}
+    off = rng.randrange(6)
     for i in range(n):
         fam = fams[i % len(fams)]
-        out.append(FAMILIES[fam](random.Random(rng.randrange(1 << 40)), '%s%d' % (prefix, i + 1)))
+        _STRAT = seen.get(fam, off)
+        seen[fam] = _STRAT + 1
+        try:
+            out.append(FAMILIES[fam](random.Random(rng.randrange(1 << 40)), '%s%d' % (prefix, i + 1)))
+        finally:
+            _STRAT = None
     return out
 
 
